@@ -1,6 +1,7 @@
 package main
 
 import (
+	"go/types"
 	"fmt"
 	"go/token"
 	"strings"
@@ -167,6 +168,42 @@ func checkC09(c *Ctx, r *Report) {
 						if aps := viewAPs(owner, x.Addr); len(aps) == 1 {
 							sel = aps[0].SelString()
 						}
+					}
+					if sel == counterSel && owner != nil {
+						// the counter is part of the session's own storage: from the session object to
+						// the counter the address crosses no pointer (a counter kept in an object the
+						// session merely points to — the connection — is shared by every session on it,
+						// so a second session would not start at 1)
+						var sessT *types.Named
+						for _, sc := range sess {
+							if sc.Fn == owner {
+								sessT = recvNamed(sc.Parent)
+							}
+						}
+						okOwn, whyOwn := false, "the counter's address is not a field path from the session object"
+						cur := x.Addr
+						for i := 0; i < 8; i++ {
+							fa, isFA := cur.(*ssa.FieldAddr)
+							if !isFA {
+								break
+							}
+							base := fa.X
+							if _, inner := base.(*ssa.FieldAddr); inner {
+								cur = base
+								continue
+							}
+							// base is a pointer value: it must be the session itself
+							pt, isPtr := base.Type().Underlying().(*types.Pointer)
+							if isPtr {
+								if n, isN := pt.Elem().(*types.Named); isN && sessT != nil && n.Obj() == sessT.Obj() {
+									okOwn = true
+								} else {
+									whyOwn = "the counter lives in a " + types.TypeString(pt.Elem(), nil) + " that the session points to, not in the session itself: sessions sharing that object share the counter"
+								}
+							}
+							break
+						}
+						r.Check(okOwn, c.FnName(fn)+"|counter owned by the session", x.Pos(), "a field of the session object's own storage", whyOwn)
 					}
 					if sel == counterSel {
 						if owner == nil {
